@@ -1,0 +1,41 @@
+//go:build verif
+
+package core
+
+import "context"
+
+// Verification hook (build tag verif): the five component inputs that WithAsyncRetry wraps, as a struct of functions.
+
+// VerifRetryEdges are the wireFuncs fields FetcherFetch, ConsensusParticipate, ConsensusPropose, ParSigExBroadcast
+// and BroadcasterBroadcast.
+type VerifRetryEdges struct {
+	FetcherFetch         func(context.Context, Duty, DutyDefinitionSet) error
+	ConsensusParticipate func(context.Context, Duty) error
+	ConsensusPropose     func(context.Context, Duty, UnsignedDataSet) error
+	ParSigExBroadcast    func(context.Context, Duty, ParSignedDataSet) error
+	BroadcasterBroadcast func(context.Context, Duty, SignedDataSet) error
+}
+
+// VerifWrapEdges builds wire funcs over the given inner functions (all other fields nil), applies the wire
+// options the way Wire does and returns the resulting five functions.
+func VerifWrapEdges(inner VerifRetryEdges, opts ...WireOption) VerifRetryEdges {
+	w := wireFuncs{
+		FetcherFetch:         inner.FetcherFetch,
+		ConsensusParticipate: inner.ConsensusParticipate,
+		ConsensusPropose:     inner.ConsensusPropose,
+		ParSigExBroadcast:    inner.ParSigExBroadcast,
+		BroadcasterBroadcast: inner.BroadcasterBroadcast,
+	}
+
+	for _, opt := range opts {
+		opt(&w)
+	}
+
+	return VerifRetryEdges{
+		FetcherFetch:         w.FetcherFetch,
+		ConsensusParticipate: w.ConsensusParticipate,
+		ConsensusPropose:     w.ConsensusPropose,
+		ParSigExBroadcast:    w.ParSigExBroadcast,
+		BroadcasterBroadcast: w.BroadcasterBroadcast,
+	}
+}
